@@ -91,7 +91,7 @@ pub fn dispatch(id: &str, tier: Tier, replay: Option<&str>) -> i32 {
         "C01" => c01::run(tier),
         "C02" => {
             let rep = Report::new("C02", tier);
-            rep.set_rule("(a) every weight matrix for <= 3 candidates x <= 3 tracks over a grid straddling the threshold (quick: 4 values for 3x3, 7 below; thorough: 7 values), thresholds 0.3 and 1.0, declared sizes exact and larger, every arrival order for <= 2x2 (three orders above), plus permutation-matrix and greedy-trap families up to 8x8: SortVoting::winners judged against an exact bitmask-DP optimum in the implementation's micro-units. (b) every relative-motion word of length 5 (6 thorough) over {approach, stay, separate} for two objects that approach, cross and separate (+ a small static object / a rotated third one), on Sort / VisualSort / BatchSort x IoU / Mahalanobis (default, wide (1/2, 1/10) and small (1/80, 1/640) Kalman weights; a small-hop family decided by the narrow gate of the small weights) x shards: before every call the live tracks (last estimate, Kalman state) are read from the store, gate and weight of every pair re-derived in f64 (own clipper, own Mahalanobis), the optimum found by brute force, and the tracker's association must attain it and never use an ungated / expired pair; asserted outside a 1e-3 margin. (c) BatchSort under pipelined use (consumer threads, 1-2 voting threads): every interleaving within a deviation bound; every scene's records must be those of the simple tracker.");
+            rep.set_rule("(a) every weight matrix for <= 3 candidates x <= 3 tracks over a grid straddling the threshold (quick: 4 values for 3x3, 7 below; thorough: 7 values), thresholds 0.3 and 1.0, declared sizes exact and larger, every arrival order for <= 2x2 (three orders above), plus permutation-matrix and greedy-trap families up to 8x8: SortVoting::winners judged against an exact bitmask-DP optimum in the implementation's micro-units. (b) every relative-motion word of length 5 (6 thorough) over {approach, stay, separate} for two objects that approach, cross and separate (+ a small static object / a rotated third one), on Sort / VisualSort / BatchSort x IoU / Mahalanobis (default, wide (1/2, 1/10) and small (1/80, 1/640) Kalman weights; a small-hop family decided by the narrow gate of the small weights; the crossing family also in a small unit (boxes 0.002 x 0.004)) x shards: before every call the live tracks (last estimate, Kalman state) are read from the store, gate and weight of every pair re-derived in f64 (own clipper, own Mahalanobis), the optimum found by brute force, and the tracker's association must attain it and never use an ungated / expired pair; asserted outside a 1e-3 margin. (c) BatchSort under pipelined use (consumer threads, 1-2 voting threads): every interleaving within a deviation bound; every scene's records must be those of the simple tracker.");
             c02::run_a(&rep, tier);
             c02::run_b(&rep, tier);
             c02::run_schedules(&rep, tier);
@@ -114,7 +114,7 @@ pub fn dispatch(id: &str, tier: Tier, replay: Option<&str>) -> i32 {
         "C17" => c17::run(tier),
         "C20" => {
             let rep = Report::new("C20", tier);
-            rep.set_rule("every ordered table of <= 3 (thorough 4) entries over gaps 0..=8 x limits {.5,1,2}, every split into two add_constraints calls, every probe (gap 0..=9 x 8 distances): reference = first configured limit of the smallest configured gap >= d; monotone in distance. Trackers: every motion word of length 5 (6 thorough) over {still, +3.5px, +11px, +30px, missed frame} for one fast object and a bystander, Sort / VisualSort x IoU / Mahalanobis (default and wide Kalman weights) x 8 constraint tables (incl. entries configured for gaps beyond max_idle, which still apply to every smaller gap): slack tables => records identical to the unconstrained tracker; binding tables => no continuation whose centre distance in units of the summed radii exceeds the limit for its epoch gap (recomputed from the pre-call store), and the association is optimal among the admitted pairs.");
+            rep.set_rule("every ordered table of <= 3 (thorough 4) entries over gaps 0..=8 x limits {.5,1,2}, every split into two add_constraints calls, every probe (gap 0..=9 x 8 distances): reference = first configured limit of the smallest configured gap >= d; monotone in distance. Trackers: every motion word of length 5 (6 thorough) over {still, +3.5px, +11px, +30px, missed frame} for one fast object and a bystander, Sort / VisualSort x IoU / Mahalanobis (default and wide Kalman weights) x 8 constraint tables (incl. entries configured for gaps beyond max_idle, which still apply to every smaller gap): slack tables => records identical to the unconstrained tracker; binding tables => no continuation whose centre distance in units of the summed radii exceeds the limit for its epoch gap (recomputed from the pre-call store), and the association is optimal among the admitted pairs; plus VisualSort / BatchVisualSort with features and limits >= 1: a look-alike that jumps 12..200 px (up to 9 x the summed radii) is never attached beyond the limit of its epoch gap.");
             c20::run_tables(&rep, tier);
             c20::run_trackers(&rep, tier);
             rep
